@@ -5,11 +5,12 @@ ROOT = os.path.dirname(os.path.abspath(__file__))
 sys.path.insert(0, ROOT)
 props = [json.loads(l) for l in open(os.path.join(ROOT, 'properties.jsonl'))]
 checks, na = [], []
+ready = set(open(os.path.join(ROOT, 'vlib', 'props', 'READY')).read().split())
 for p in props:
     pid = p['id']
     path = os.path.join(ROOT, 'vlib', 'props', pid.lower() + '.py')
     meta = None
-    if os.path.exists(path):
+    if os.path.exists(path) and pid in ready:
         src = open(path).read()
         m = re.search(r'^MANIFEST\s*=\s*(\{.*?^\})', src, re.S | re.M)
         if m:
